@@ -166,10 +166,40 @@ theorem gasDiff_eq {p g : Nat} (hp : p < two63) (hg : g ≤ gasCap) :
   simp only
   split <;> split <;> split <;> omega
 
+theorem length_chunks (k : Nat) (b : Bytes) : (chunks k b).length = k := by
+  induction k generalizing b with
+  | zero => rfl
+  | succ k ih => simp [chunks, ih]
+
+/-- `ParseValidators` succeeds only on a whole, non-zero number of 20-byte addresses -/
+theorem parseValidators_some {extra : Bytes} {l : List Bytes} (h : parseValidators extra = some l) :
+    addressLength ≤ extra.length - extraVanity - extraSeal
+    ∧ (extra.length - extraVanity - extraSeal) % addressLength = 0
+    ∧ l.length = (extra.length - extraVanity - extraSeal) / addressLength ∧ 1 ≤ l.length := by
+  unfold parseValidators at h
+  simp only at h
+  split at h; · cases h
+  split at h; · cases h
+  rename_i h1 h2
+  simp only [Option.some.injEq] at h
+  have hl : ((List.drop extraVanity extra).take (extra.length - extraVanity - extraSeal)).length
+      = extra.length - extraVanity - extraSeal := by
+    simp only [List.length_take, List.length_drop]; unfold extraVanity extraSeal; omega
+  rw [hl] at h1 h2 h
+  have hlen : l.length = (extra.length - extraVanity - extraSeal) / addressLength := by
+    rw [← h]; exact length_chunks _ _
+  unfold addressLength at *
+  refine ⟨by omega, by omega, hlen, by omega⟩
+
+theorem parseValidators_ne_nil {extra : Bytes} {l : List Bytes} (h : parseValidators extra = some l) : l ≠ [] := by
+  have := (parseValidators_some h).2.2.2
+  intro hn; rw [hn] at this; simp at this
+
 /-- structural validity as the property states it -/
 def StructurallyValid (cs : ClientState) (h : Header) : Prop :=
   extraVanity + extraSeal ≤ h.extra.length
-  ∧ (h.number % cs.epoch = 0 → (h.extra.length - extraVanity - extraSeal) % addressLength = 0)
+  ∧ (h.number % cs.epoch = 0 → (h.extra.length - extraVanity - extraSeal) % addressLength = 0
+        ∧ addressLength ≤ h.extra.length - extraVanity - extraSeal)   -- an epoch header carries ≥ 1 validator
   ∧ (h.number % cs.epoch ≠ 0 → h.extra.length = extraVanity + extraSeal)
   ∧ toHash h.mixDigest = 0
   ∧ toHash h.uncleHash = uncleHashC
@@ -232,18 +262,23 @@ theorem accept_sound {env : Env} {cs cs' : ClientState} {st st' : Store} {bt : N
         ∧ signer ∈ valSet cs.validators
         ∧ (∀ e ∈ st.recents, h.number ≤ e.num + (valSet cs.validators).length / 2 → e.addr ≠ signer)
         ∧ beNat h.difficulty = (if inturn cs.validators cs.head.number signer then 2 else 1) := by
-  obtain ⟨c, st1, st2, _, _, hv, _, _⟩ := updateClient_ok hacc
+  obtain ⟨c, st1, st2, _, _, hv, hupd, _⟩ := updateClient_ok hacc
   obtain ⟨hvb, he, hx1, hx2, hcf⟩ := verifyHeader_ok hv
   obtain ⟨hb1, hb2, hb3, hb4⟩ := validateBasic_ok hvb
   obtain ⟨hc1, hc2, hc3, hc4, hc5, hc6, hs⟩ := verifyCascadingFields_ok hcf
   obtain ⟨signer, hr, hcb, hmem, hrec, hdiff, _⟩ := verifySeal_ok hs
+  obtain ⟨_, pending, hpa, _, _⟩ := update_ok hupd
   have hnumber : h.number = cs.head.number + 1 := by
     unfold subU64 two64 at hc1; unfold two64 at hnum hu64
     omega
   have hpos : 0 < h.number := by omega
   obtain ⟨_, hdnz⟩ := hb4 hpos
   refine ⟨hnumber, hc2.symm, ?_, signer, hr, hcb, hmem, ?_, hdiff⟩
-  · refine ⟨hb1, hx2, ?_, hb2, hb3, hdnz, hc3, hc4, hc6, ?_⟩
+  · refine ⟨hb1, ?_, ?_, hb2, hb3, hdnz, hc3, hc4, hc6, ?_⟩
+    · intro h0
+      unfold pendingAfter at hpa
+      simp only [h0, ↓reduceIte] at hpa
+      exact ⟨hx2 h0, (parseValidators_some hpa).1⟩
     · intro hne; have := hx1 hne; unfold extraVanity extraSeal at *; omega
     · rw [gasDiff_eq hgas hc3] at hc5
       have : cs.head.gasLimit % two64 = cs.head.gasLimit := Nat.mod_eq_of_lt (by unfold two63 at hgas; unfold two64; omega)
@@ -586,12 +621,14 @@ theorem createClient_ok {env : Env} {cs0 cs : ClientState} {st : Store}
       ∧ st = { recents := [⟨cs0.head.rev, cs0.head.number, signer⟩], pending := pending,
                cons := [⟨cs0.head.rev, cs0.head.number, cs0.head.time, cs0.head.root⟩] } := by
   unfold createClient at hc
+  split at hc; · cases hc
+  rename_i h1
+  split at hc; · cases hc
+  split at hc; · cases hc
   split at hc
   · cases hc
   · cases hc
   · split at hc; · cases hc
-    rename_i h1
-    split at hc; · cases hc
     rename_i h2
     split at hc
     · cases hc
@@ -603,6 +640,21 @@ theorem createClient_ok {env : Env} {cs0 cs : ClientState} {st : Store}
       · rename_i pending hp
         simp only [Outcome.ok.injEq, Prod.mk.injEq] at hc
         exact ⟨hc.1.symm, h1, by simpa using h2, signer, pending, hr, by simpa using h3, hp, hc.2.symm⟩
+
+/-- a client is never created at height 0-0, with epoch 0, or from an epoch header without validators -/
+theorem createClient_guards {env : Env} {cs0 cs : ClientState} {st : Store}
+    (hc : createClient env cs0 = .ok (cs, st)) :
+    1 ≤ cs0.epoch ∧ cs0.chainId ≤ gasCap ∧ ¬(cs0.head.rev = 0 ∧ cs0.head.number = 0) ∧ st.pending ≠ [] := by
+  obtain ⟨_, he, _, signer, pending, _, _, hp, hst⟩ := createClient_ok hc
+  unfold createClient at hc
+  split at hc; · cases hc
+  split at hc; · cases hc
+  rename_i h2
+  split at hc; · cases hc
+  rename_i h3
+  refine ⟨by omega, by omega, h3, ?_⟩
+  rw [hst]; simp only
+  exact parseValidators_ne_nil hp
 
 /-- Runs of the repaired client: `create` followed by accepted updates. `h0` is the initial head, `recs` the
 accepted headers (most recent first) each with the number of distinct validators in force after it.
@@ -897,16 +949,29 @@ def client (epoch tp : Nat) (vals : List Nat) (head : Header) : ClientState :=
 
 /-! ### F9 — code as found: while `number < limit` the uint64 subtraction wraps and the window test is off -/
 
-def f9Client : ClientState := client 100 1000 [1, 2] (hdr 0 1 2 100 [1, 2])
+def oneClientE : ClientState := client 4 1000 [1] (hdr 4 1 2 100 [1])
 
-/-- validators {1,2} (⌊N/2⌋ = 1), client created at height 0 whose sealer is 1; header 1 is sealed by 1 again:
-the code as found accepts it, the repaired code rejects it. -/
+def f9Client : ClientState := client 2 1000 [1, 2, 3, 4, 5, 6] (hdr 2 1 2 100 [1, 2, 3, 4, 5, 6])
+
+/-- six validators (limit 4, ⌊N/2⌋ = 3), epoch 2, client created at height 2 whose sealer is validator 1 (a client
+cannot be created at height 0-0 any more); header 3 is sealed by 1 again: `3 - 4` wraps, the code as found
+accepts it, the repaired code rejects it. -/
 theorem asFound_accepts_recent_signer_below_limit :
-    (run Fix.asFound env f9Client [(0, hdr 1 1 1 103)]).isOk = true
-    ∧ (run Fix.fixed env f9Client [(0, hdr 1 1 1 103)]).isOk = false
-    ∧ env.recover 56 (hdr 1 1 1 103) = env.recover 56 f9Client.head
-    ∧ (valSet f9Client.validators).length / 2 = 1 := by
+    (run Fix.asFound env f9Client [(0, hdr 3 1 1 103)]).isOk = true
+    ∧ (run Fix.fixed env f9Client [(0, hdr 3 1 1 103)]).isOk = false
+    ∧ env.recover 56 (hdr 3 1 1 103) = env.recover 56 f9Client.head
+    ∧ (valSet f9Client.validators).length / 2 = 3 := by
   refine ⟨by decide +kernel, by decide +kernel, by decide +kernel, by decide +kernel⟩
+
+/-- the guards of `ClientState.Validate`: no client at height 0-0, none from an epoch header without validators -/
+theorem create_rejects_height_zero_and_empty_list :
+    (run Fix.fixed env (client 100 1000 [1, 2] (hdr 0 1 2 100 [1, 2])) []).isOk = false
+    ∧ (run Fix.fixed env (client 100 1000 [1, 2] (hdr 100 1 2 100 [])) []).isOk = false
+    ∧ (run Fix.fixed env (client 100 1000 [1, 2] (hdr 100 1 2 100 [1, 2])) []).isOk = true
+    -- an epoch header announcing an empty list is refused (it would leave the client without validators)
+    ∧ (run Fix.fixed env oneClientE [(0, hdr 5 1 2 103), (0, hdr 6 1 2 106), (0, hdr 7 1 2 109), (0, hdr 8 1 2 112 [])]).isOk = false
+    ∧ (run Fix.fixed env oneClientE [(0, hdr 5 1 2 103), (0, hdr 6 1 2 106), (0, hdr 7 1 2 109), (0, hdr 8 1 2 112 [1])]).isOk = true := by
+  refine ⟨by decide +kernel, by decide +kernel, by decide +kernel, by decide +kernel, by decide +kernel⟩
 
 /-! ### F9b — code as found: expiry of the earliest consensus state deletes the recent-signer record of its height -/
 
@@ -931,25 +996,25 @@ theorem asFound_accepts_recent_signer_after_expiry :
 
 /-! ### known finding — thin window right after the validator set grew (identical to upstream Parlia) -/
 
-def growClient : ClientState := client 4 1000 [1, 2, 3] (hdr 0 1 2 100 [1, 2, 3])
+def growClient : ClientState := client 4 1000 [1, 2, 3] (hdr 4 1 2 100 [1, 2, 3])
 
 def nine : List Nat := [1, 2, 3, 4, 5, 6, 7, 8, 9]
 
 def growBlocks : List (Nat × Header) :=
-  [(0, hdr 1 2 2 103), (0, hdr 2 1 1 106), (0, hdr 3 2 1 109), (0, hdr 4 3 1 112 nine), (0, hdr 5 2 1 115),
-   (0, hdr 6 1 1 118)]
+  [(0, hdr 5 2 1 103), (0, hdr 6 1 2 106), (0, hdr 7 2 2 109), (0, hdr 8 3 2 112 nine), (0, hdr 9 2 1 115),
+   (0, hdr 10 1 1 118)]
 
-/-- the set grows from 3 to 9 validators at height 5 (announced by epoch header 4). Validator 1 sealed
-height 2; its record was dropped on the schedule of the 3-validator set (at height 4). Header 6 sealed by
-validator 1 is accepted although 6 − 2 = 4 ≤ ⌊9/2⌋: the full-window statement does not hold right after a
+/-- the set grows from 3 to 9 validators at height 9 (announced by epoch header 8). Validator 1 sealed
+height 6; its record was dropped on the schedule of the 3-validator set (at height 8). Header 10 sealed by
+validator 1 is accepted although 10 − 6 = 4 ≤ ⌊9/2⌋: the full-window statement does not hold right after a
 growth (`accept_sound_full` needs `hstable`). The repaired client is a `Trace` here — also the non-vacuity
 example for the hypotheses of the run theorems. -/
 theorem growth_thin_window :
     (∃ cs st recs, run Fix.fixed env growClient growBlocks = .ok (cs, st)
         ∧ Trace env cs st growClient.head recs ∧ recs.length = 6
         ∧ (valSet cs.validators).length = 9)
-    ∧ env.recover 56 (hdr 6 1 1 118) = env.recover 56 (hdr 2 1 1 106)
-    ∧ 6 - 2 ≤ 9 / 2 := by
+    ∧ env.recover 56 (hdr 10 1 1 118) = env.recover 56 (hdr 6 1 2 106)
+    ∧ 10 - 6 ≤ 9 / 2 := by
   refine ⟨?_, by decide +kernel, by decide +kernel⟩
   have hok : (run Fix.fixed env growClient growBlocks).isOk = true := by decide +kernel
   cases hr : run Fix.fixed env growClient growBlocks with
